@@ -151,6 +151,60 @@ def class_component_step(ft: int, fr: int, fo: int, ti: int, inst_has: bool) -> 
     return hx.end(True)
 
 
+def class_component_history(c0: int, t0: int, c1: int, t1: int, c2: int, t2: int) -> bool:
+    """
+    pre: 0 <= c0 < 6 and 0 <= c1 < 6 and 0 <= c2 < 6
+    pre: 0 <= t0 < 2 and 0 <= t1 < 2 and 0 <= t2 < 2
+    post: _
+    """
+    # from freshly created classes, through the public API only (the class-level stores are whatever the metaclass set up)
+    hx.begin()
+    ops = hx.P['ops']
+    classes = _hierarchy()
+    Agent._components.clear()
+    m = Model(logger=NULL_LOGGER)
+    ref = [dict() for _ in classes]
+    cs, ts = [c0, c1, c2], [t0, t1, t2]
+    for k, op in enumerate(ops):
+        ci = cs[k]
+        cls = hx.pick(classes, ci)
+        T = hx.pick(KT, ts[k])
+        mine = hx.pick(ref, ci)
+        if op == 'a':
+            comp = T(cls, m)
+            if T in mine:
+                hx.reach('duplicate_rejected')
+                try:
+                    cls.add_class_component(comp)
+                    return hx.end(hx.fail("duplicate class component accepted", step=k))
+                except ValueError:
+                    pass
+            else:
+                hx.reach('attached')
+                cls.add_class_component(comp)
+                mine[T] = comp
+        else:
+            if T in mine:
+                hx.reach('detached')
+                cls.remove_class_component(T)
+                del mine[T]
+            else:
+                hx.reach('absent_rejected')
+                try:
+                    cls.remove_class_component(T)
+                    return hx.end(hx.fail("absent class component detached", step=k, cls=cls.__name__))
+                except ComponentNotFoundError:
+                    pass
+        for i, c in enumerate(classes):
+            for U in KT:
+                if (U in c) != (U in ref[i]) or c[U] is not ref[i].get(U):
+                    return hx.end(hx.fail("class component visibility differs from the per-class reference model", step=k,
+                                          through=c.__name__, type=U.__name__, after="%s %s on %s" % (op, T.__name__, cls.__name__)))
+            if _len(c) != len(ref[i]):
+                return hx.end(hx.fail("len(cls)", through=c.__name__))
+    return hx.end(True)
+
+
 def default_tag(tA: int, tC: int, tS: int, tE: int, which: int, explicit: bool, etag: int, order: bool) -> bool:
     """
     pre: 0 <= which < 6
@@ -219,5 +273,10 @@ def obligations(tier):
           labels=("applied", "duplicate_rejected", "absent_rejected"),
           labels_for=lambda p: ("applied", "duplicate_rejected") if p["op"] == "attach" else ("applied", "absent_rejected"),
           timeout=900, encoded=enc),
+        X("class_component_history", class_component_history,
+          parts=[{"ops": o} for o in (("aa", "ad", "a") if tier == "quick" else ("aa", "ad", "aaa", "aad", "ada", "add"))],
+          labels=("attached", "duplicate_rejected", "detached", "absent_rejected"),
+          labels_for=lambda p: {"a": ("attached",), "aa": ("attached", "duplicate_rejected"), "ad": ("detached", "absent_rejected")}.get(p["ops"], ("attached",)),
+          timeout=900, encoded=enc, bounds={"history": "<= %d attach/detach from fresh classes" % (2 if tier == "quick" else 3)}),
         X("default_tag", default_tag, labels=("explicit", "class_default"), timeout=300, encoded=enc),
     ]
